@@ -34,11 +34,14 @@ def shards(tier, seed):
         for r in range(reps):
             out.append({'name': 'g%d.r%d' % (gi, r), 'indexes': g, 'rep': r,
                         'n_random': 120 if tier == 'quick' else 1500})
-    return out
+    return common.with_configs(out, [common.W_ERROR, common.LOG_DEBUG],
+                               take=2 if tier == 'quick' else 16)
 
 
 def cases(shard, rnd):
     for idx in shard['indexes']:
+        if common.skip_under_config(idx):
+            continue
         spec = refspec.METHODS[idx]
         if shard['rep'] == 0:
             # all 2^k bit combinations
@@ -70,6 +73,16 @@ def run_case(case, rec):
     idx, vals, ch = case['index'], case['vals'], case['ch']
     spec = refspec.METHODS[idx]
     rec.ev()
+    if case.get('prefix'):
+        common.replay_history(case['prefix'])
+        case = {k: v for k, v in case.items() if k != 'prefix'}
+    # fault interleaving, encoder side: the caller's own table is refused
+    # once (poisoned), repaired in place, then encoded for real
+    for n, t, _ in spec.args:
+        if t == 'table' and vals[n]:
+            common.fail_then_retry_table(vals[n], common.RND)
+            rec.count('failed_encodes_interleaved')
+    case = common.H(case)
     cls = boundary.lib_class_for(idx)
     if cls is None:
         rec.violation('index-not-in-catalogue',
@@ -102,12 +115,17 @@ def run_case(case, rec):
                       'accepted domain' % (spec.name, m.describe()), case)
         return
     data = m.value
+    # fault interleaving, decoder side: corrupted relatives of this very
+    # frame are decoded (and refused) first
+    common.disturb_decoder(data, common.RND, 2)
+    rec.count('failed_decodes_interleaved', 2)
     u = common.lib_unmarshal(data)
     if not u.ok:
         rec.violation('decode-failed:%s' % (u.exc_type or 'budget'),
-                      'frame.unmarshal of the library\'s own %s frame %s'
-                      % (spec.name, u.describe()), case,
-                      observed=common.hexs(data))
+                      'frame.unmarshal of the library\'s own %s frame %s '
+                      '(after %d interleaved failing operations)'
+                      % (spec.name, u.describe(), len(common.HISTORY)),
+                      case, observed=common.hexs(data))
         return
     try:
         consumed, ch2, g = u.value
@@ -173,6 +191,32 @@ def run_case(case, rec):
                           case)
             return
         rec.count('decode_mutate_decode_ok')
+    # the caller changes its own table in place (no attribute assignment)
+    # and sends the same object again: the new content must go out
+    for n, t, _ in spec.args:
+        if t == 'table' and isinstance(vals[n], dict) and vals[n] and \
+                getattr(obj, n, None) is vals[n]:
+            common.mutate_in_place(vals[n])
+            m3 = common.lib_marshal(obj, ch)
+            u3 = common.lib_unmarshal(m3.value) if m3.ok else m3
+            if not u3.ok:
+                rec.violation('re-encode-after-input-change-failed',
+                              '%s: encoding the same object again after '
+                              'its table was changed in place: %s'
+                              % (spec.name, u3.describe()), case)
+                return
+            exp3 = common.expected_method_values(spec, vals)
+            d3 = common.compare_values(exp3, boundary.method_values(
+                u3.value[2], spec))
+            if d3:
+                rec.violation('stale-encoding-after-input-change:' + d3[1],
+                              '%s: the table was changed in place and the '
+                              'object encoded again, but the frame still '
+                              'carries the old content: %s'
+                              % (spec.name, d3[2]), case)
+                return
+            rec.count('encode_change_encode_ok')
+            break
     rec.count('roundtrips_ok')
     rec.count('why:' + case['why'].split(':')[0])
     for n, t, _ in spec.args:
